@@ -269,7 +269,7 @@ func verifC06(mode, L int) {
 	tag("/tr")
 	tag("/thead")
 	tag("tbody")
-	nb := 2
+	nb := 5
 	if mode == 1 {
 		nb = vfChoice("nbody", 3)
 	}
@@ -277,8 +277,9 @@ func verifC06(mode, L int) {
 		k := 2
 		if mode == 1 {
 			k = []int{0, 2, 3, 1}[vfChoice(vfName("row", r), 3+vfTier())]
-		} else if r == 0 {
-			k = 0
+		} else {
+			// one cell, separator, separator, a row without cells, two cells
+			k = []int{2, 0, 0, 1, 3}[r]
 		}
 		if k == 0 {
 			ht.AddSeparator()
